@@ -5,6 +5,7 @@ import Ipv8.C02.Tables
 import Ipv8.C02.OldPayloads
 import Ipv8.C02.WF
 import Ipv8.C02.Dataclass
+import Ipv8.C02.Registry
 
 namespace Ipv8.C02
 open Ipv8
@@ -435,5 +436,32 @@ theorem flatten_vpPack : (fs : FmtList) → (a pl : List Val) → Old.vpPack fs 
           simp [hr] at h
           subst h
           simp [ValList.ofList, flatten_cons_nonbits f fs v _ hf, flatten_vpPack fs r pl' hr]
+
+/-! ### constructors of the hand-written payloads -/
+
+/-- every natural number among the arguments is an in-domain `H` value -/
+def identsInDomain : List Val → Prop
+  | [] => True
+  | .atom (.nat k) :: r => k < 65536 ∧ identsInDomain r
+  | _ :: r => identsInDomain r
+
+theorem modIdentAt_in_domain : (i : Nat) → (args : List Val) → identsInDomain args → Old.modIdentAt i args = args
+  | 0, [], _ => rfl
+  | _+1, [], _ => rfl
+  | 0, v :: r, h => by
+    cases v with
+    | atom a =>
+      cases a with
+      | nat k =>
+        simp only [identsInDomain] at h
+        simp [Old.modIdentAt, Nat.mod_eq_of_lt h.1]
+      | _ => rfl
+    | _ => rfl
+  | i+1, v :: r, h => by
+    have hr : identsInDomain r := by
+      cases v with
+      | atom a => cases a <;> simp_all [identsInDomain]
+      | _ => simpa [identsInDomain] using h
+    simp [Old.modIdentAt, modIdentAt_in_domain i r hr]
 
 end Ipv8.C02
